@@ -29,10 +29,16 @@ var c07ops = []string{"req-m0", "req-m1", "reset-m0", "m0-down", "m0-up", "move-
 
 type c07case struct {
 	Ops []int `json:"ops"`
+	// Hostnames: the nodes announce (and the proxy dials) host names, so the address a connection reports
+	// after name resolution differs from the address the proxy knows the backend by.
+	Hostnames bool `json:"hostnames,omitempty"`
 }
 
 func (c c07case) String() string {
 	var s []string
+	if c.Hostnames {
+		s = append(s, "(nodes known by host name)")
+	}
 	for _, o := range c.Ops {
 		s = append(s, c07ops[o])
 	}
@@ -45,6 +51,9 @@ func c07run(cs c07case) (sig, detail string) {
 		cl := cluster.New(2, 0, 4)
 		m0, m1 := cl.Masters()[0], cl.Masters()[1]
 		cl.Owner[0], cl.Owner[1], cl.Owner[2], cl.Owner[3] = m0, m0, m1, m1
+		if cs.Hostnames {
+			cl.UseHostnames()
+		}
 		s := vfStartStack(cl, vfSvcConfig(0, nil, 0))
 		c := s.NewClient("c0")
 		k0, k1, k2 := cl.KeyInGroup("k", 0, 0), cl.KeyInGroup("k", 1, 0), cl.KeyInGroup("k", 2, 0)
@@ -185,19 +194,24 @@ func c07histories(env sched.Env) *sched.Report {
 					rep.Complete = false
 					return
 				}
-				cs := c07case{append([]int{}, ops...)}
-				sched.Progress(cs)
-				sig, detail := c07run(cs)
-				rep.Execs++
-				rep.Transitions += int64(len(ops))
-				if sig != "" {
-					rep.Outcomes["violation: "+sig]++
-					if !sigs[sig] {
-						sigs[sig] = true
-						rep.Violations = append(rep.Violations, sched.CustomViolation("C07/histories", sig, detail, cs))
+				for _, hn := range []bool{false, true} {
+					if hn && len(ops) > depth-1 {
+						continue // the host-name variant is explored one level less deep
 					}
-				} else {
-					rep.Outcomes["ok"]++
+					cs := c07case{Ops: append([]int{}, ops...), Hostnames: hn}
+					sched.Progress(cs)
+					sig, detail := c07run(cs)
+					rep.Execs++
+					rep.Transitions += int64(len(ops))
+					if sig != "" {
+						rep.Outcomes["violation: "+sig]++
+						if !sigs[sig] {
+							sigs[sig] = true
+							rep.Violations = append(rep.Violations, sched.CustomViolation("C07/histories", sig, detail, cs))
+						}
+					} else {
+						rep.Outcomes["ok"]++
+					}
 				}
 			}
 		}
@@ -215,7 +229,7 @@ func c07histories(env sched.Env) *sched.Report {
 		if n%env.NShards != env.Shard {
 			continue
 		}
-		cs := c07case{h}
+		cs := c07case{Ops: h}
 		sig, detail := c07run(cs)
 		rep.Execs++
 		if sig != "" && !sigs[sig] {
@@ -225,7 +239,7 @@ func c07histories(env sched.Env) *sched.Report {
 	}
 	rep.States = rep.Execs
 	rep.Distinct = rep.Execs
-	rep.CustomSamples = []interface{}{c07case{[]int{2, 0, 0}}.String(), c07case{[]int{5, 6, 0, 7, 7, 0}}.String()}
+	rep.CustomSamples = []interface{}{c07case{Ops: []int{2, 0, 0}}.String(), c07case{Ops: []int{5, 6, 0, 7, 7, 0}}.String()}
 	return rep
 }
 
@@ -262,7 +276,73 @@ func c07concurrentLossBody() {
 	sched.SetOutcome("ok")
 }
 
+// C07 (S): the layout changes and a request is redirected while a slot refresh is in flight whose answer
+// was produced from the old layout (the answer is delayed on the network). The refresh triggered by that first
+// redirection must still happen: after two refresh rounds requests are not redirected any more.
+func c07refreshInFlightBody() {
+	vrand.Fair()
+	if sched.Choose(sched.ClsInput, 2, "rotation of the random host picks") == 1 {
+		vrand.Intn(2) // shifts the rotation, so that the in-flight refresh asks the other node
+	}
+	cl := cluster.New(2, 0, 4)
+	m0, m1 := cl.Masters()[0], cl.Masters()[1]
+	cl.Owner[0], cl.Owner[1], cl.Owner[2], cl.Owner[3] = m0, m0, m1, m1
+	s := vfStartStack(cl, vfSvcConfig(0, nil, 0))
+	c := s.NewClient("c0")
+	k0 := cl.KeyInGroup("k", 0, 0)
+	if v, err := c.Do("SET", k0, "1"); err != nil || v.Kind == '-' {
+		sched.Fail("error-reply-although-backend-reachable / no fault before", fmt.Sprintf("SET: %s %v", v, err))
+		return
+	}
+	sched.WaitQuiescent()
+	s.RefreshRound()
+	cl.HoldCluster = true
+	sched.AdvanceTime(int64(slotsRefFreq) + 1) // the periodic refresh starts; its answer stays in flight
+	sched.WaitQuiescent()
+	if cl.Held == 0 {
+		sched.SetOutcome("no refresh in flight")
+		return
+	}
+	cl.MoveGroup(0, m1)
+	mark := len(cl.Log)
+	c.Send(resp.Encode(resp.Cmd("GET", k0)))
+	sched.WaitQuiescent()
+	cl.HoldCluster = false
+	v, err := c.Read()
+	if err != nil || !resp.Equal(v, resp.BulkS("1")) {
+		sched.Fail("wrong-reply / refresh in flight", fmt.Sprintf("GET %s while a refresh is in flight: %s %v", k0, v, err))
+		return
+	}
+	sched.WaitQuiescent()
+	redirected := cl.Redirects(mark) > 0
+	s.RefreshRound()
+	s.RefreshRound()
+	mark = len(cl.Log)
+	v, err = c.Do("GET", k0)
+	if err != nil || !resp.Equal(v, resp.BulkS("1")) {
+		sched.Fail("wrong-reply / refresh in flight", fmt.Sprintf("second GET %s: %s %v", k0, v, err))
+		return
+	}
+	sched.WaitQuiescent()
+	if r := cl.Redirects(mark); redirected && r > 0 {
+		sched.Fail("still-redirected-after-two-refresh-rounds / first redirection during an in-flight refresh",
+			fmt.Sprintf("group 0 moved m0->m1 while a refresh answered from the old layout was in flight; GET was redirected, two refresh rounds passed, the next GET was redirected %d more times", r))
+	}
+	if redirected {
+		sched.SetOutcome("redirected during the refresh, converged")
+	} else {
+		sched.SetOutcome("not redirected")
+	}
+}
+
 func init() {
+	sched.Register(&sched.Scenario{Name: "C07/refresh-in-flight", Setup: func(tier string) (sched.Config, func()) {
+		b := sched.Bounds{P: 1, F: 1}
+		if tier == "thorough" {
+			b = sched.Bounds{P: 2, F: 2}
+		}
+		return sched.Config{Bounds: b, Iterative: true, MaxSteps: 100000}, c07refreshInFlightBody
+	}})
 	sched.Register(&sched.Scenario{Name: "C07/concurrent-loss", Setup: func(tier string) (sched.Config, func()) {
 		b := sched.Bounds{P: 1, F: 1}
 		if tier == "thorough" {
